@@ -2,11 +2,12 @@ package main
 
 import (
 	"encoding/json"
-	"go/ast"
-	"go/types"
 	"flag"
 	"fmt"
+	"go/ast"
+	"go/types"
 	"os"
+	"os/exec"
 	"path/filepath"
 	"runtime"
 	"sort"
@@ -113,6 +114,9 @@ func cmdCheck(args []string) {
 	os.MkdirAll(work, 0o755)
 	cfg := SolverCfg{WorkDir: work, TimeoutS: timeout, Seed: seed, Jobs: runtime.NumCPU(), Thorough: *tier == "thorough"}
 	res := runProperty(w, *prop, cfg)
+	if *tier == "thorough" && !*writeBaseline && os.Getenv("VERIF_NO_CANARIES") == "" {
+		canaryResults = runCanaries(*prop)
+	}
 	code := report(w, res, *tier, seed, cfg, t0, *writeBaseline)
 	os.Exit(code)
 }
@@ -285,6 +289,53 @@ func report(w *World, res *checkResult, tier string, seed int, cfg SolverCfg, t0
 	return 0
 }
 
+// ---------------------------------------------------------------- must-fail canaries (thorough tier)
+
+var canaryResults []map[string]any
+
+// runCanaries: every seeded change of this property that the checks are known to catch (seeded/<id>/meta.json) is
+// applied to a scratch copy of /repo and the quick check is run on it: it must report a violation. A canary that is
+// no longer caught means the machinery lost strength (printed as SELFTEST-MISS, recorded in the evidence); it says
+// nothing about the property on the tree under test, so it does not change the exit code.
+func runCanaries(prop string) []map[string]any {
+	var out []map[string]any
+	dirs, _ := filepath.Glob(filepath.Join(verifDir, "seeded", "*", "meta.json"))
+	sort.Strings(dirs)
+	for _, mf := range dirs {
+		var meta struct {
+			ID       string `json:"id"`
+			Prop     string `json:"breaks_property"`
+			Detected bool   `json:"detected"`
+			By       []struct {
+				Check string `json:"check"`
+			} `json:"detected_by"`
+		}
+		if loadJSON(mf, &meta) != nil || !meta.Detected {
+			continue
+		}
+		mine := false
+		for _, b := range meta.By {
+			if b.Check == prop {
+				mine = true
+			}
+		}
+		if !mine {
+			continue
+		}
+		patch := filepath.Join(filepath.Dir(mf), "patch.diff")
+		cmd := exec.Command(filepath.Join(verifDir, "tools", "mutcheck.sh"), patch, prop)
+		cmd.Env = append(os.Environ(), "VERIF_TIER=quick", "VERIF_NO_CANARIES=1")
+		o, _ := cmd.CombinedOutput()
+		caught := strings.Contains(string(o), "VIOLATION property="+prop)
+		applied := !strings.Contains(string(o), "PATCH FAILED")
+		out = append(out, map[string]any{"seed": meta.ID, "patch_applies": applied, "caught": caught})
+		if applied && !caught {
+			fmt.Printf("SELFTEST-MISS property=%s seeded change %s is no longer reported\n", prop, meta.ID)
+		}
+	}
+	return out
+}
+
 // ---------------------------------------------------------------- evidence
 
 func writeEvidence(w *World, res *checkResult, tier string, seed int, cfg SolverCfg, t0 time.Time, violations int, knownLines, undecided []string, knownFam map[string]KnownFinding) {
@@ -391,24 +442,25 @@ func writeEvidence(w *World, res *checkResult, tier string, seed int, cfg Solver
 		"sequential semantics: the verified functions are not interleaved with other goroutines touching the same objects",
 		"heap well-formedness at entry: integer cells within their type range, pointers nil or allocated, slice len/cap/off non-negative")
 	cov := map[string]any{
-		"obligations":              nObl,
-		"discharged":               nDis,
-		"reachability_probes":      probes,
-		"slow_obligations":         slow,
-		"checker_cmd":              fmt.Sprintf("/verif/bin/govc check -prop %s -tier %s  (VCs from /repo working tree via go/packages -tags=verif; solvers z3-new 5.1 / z3 4.8.12 / cvc5 1.0.x raced, %ds limit)", prop, tier, cfg.TimeoutS),
-		"trusted_base":             append([]string{"govc VC generator (/verif/govc)", "go/packages + go/types (x/tools v0.29.0)", "SMT solvers z3 / cvc5"}, deps...),
-		"samples":                  samples,
-		"functions_under_contract": fnames,
-		"families":                 fams,
-		"by_backend":               byBackend,
-		"solver_time_s":            round3(solverTime),
-		"uncontracted_callees":     uniq(uncontracted),
-		"dropped":                  uniq(dropped),
-		"out_of_subset":            outOfSubset,
-		"known_findings":           knownLines,
+		"obligations":                        nObl,
+		"discharged":                         nDis,
+		"reachability_probes":                probes,
+		"selftest_canaries":                  canaryResults,
+		"slow_obligations":                   slow,
+		"checker_cmd":                        fmt.Sprintf("/verif/bin/govc check -prop %s -tier %s  (VCs from /repo working tree via go/packages -tags=verif; solvers z3-new 5.1 / z3 4.8.12 / cvc5 1.0.x raced, %ds limit)", prop, tier, cfg.TimeoutS),
+		"trusted_base":                       append([]string{"govc VC generator (/verif/govc)", "go/packages + go/types (x/tools v0.29.0)", "SMT solvers z3 / cvc5"}, deps...),
+		"samples":                            samples,
+		"functions_under_contract":           fnames,
+		"families":                           fams,
+		"by_backend":                         byBackend,
+		"solver_time_s":                      round3(solverTime),
+		"uncontracted_callees":               uniq(uncontracted),
+		"dropped":                            uniq(dropped),
+		"out_of_subset":                      outOfSubset,
+		"known_findings":                     knownLines,
 		"known_finding_obligations_excluded": knownObl,
-		"undecided":                undecided,
-		"integers":                 "mathematical Int with range obligations (overflow / narrowing are obligations; wrap-around only where a contract opts in with `wraps`)",
+		"undecided":                          undecided,
+		"integers":                           "mathematical Int with range obligations (overflow / narrowing are obligations; wrap-around only where a contract opts in with `wraps`)",
 	}
 	ev := map[string]any{
 		"property_id": prop,
